@@ -125,7 +125,11 @@ func main() {
 		os.Exit(2)
 	}
 	facts := Facts{Consts: map[string]string{}, Funcs: map[string]FuncFact{}}
+	var pollLean string
 	for _, p := range pkgs {
+		if p.Name == "netpoll" {
+			pollLean = pollFacts(p)
+		}
 		if len(p.Errors) > 0 {
 			for _, e := range p.Errors {
 				fmt.Fprintln(os.Stderr, "pkg error:", e)
@@ -220,6 +224,10 @@ func main() {
 		}
 		b.WriteString("\nend Netpoll.Gen\n")
 		if err := os.WriteFile(filepath.Join(*out, "Consts.lean"), []byte(b.String()), 0o644); err != nil {
+			fmt.Fprintln(os.Stderr, err)
+			os.Exit(2)
+		}
+		if err := os.WriteFile(filepath.Join(*out, "Poll.lean"), []byte(pollLean), 0o644); err != nil {
 			fmt.Fprintln(os.Stderr, err)
 			os.Exit(2)
 		}
